@@ -48,6 +48,12 @@ check("C07", "exploration", "property-based testing (Hypothesis) against an inde
       "Trusted: vp/refsearch.py + vp/confmodel.py. do_extrapolate=True is only checked for string-superset and validity of elements.",
       "DESIGN.md section 2, C07")
 
+check("C08", "exploration", "property-based testing (Hypothesis): generated universes and searches against a reference unfolding + segment glob matcher",
+      "For generated lists (complete hierarchies, leaves only, noisy) and searches, FindInList.find (as strings and as Sids) is compared as a multiset with the entries "
+      "matching a reference form; sid.match is compared with the same predicate on single-element lists.",
+      "Trusted: vp/refsearch.py glob matcher and unfolding. Open known finding: '[seq]' is an fnmatch character class in glob2re (tolerated only with that exact signature).",
+      "DESIGN.md section 2, C08")
+
 NOT_APPLICABLE = {
 }
 
